@@ -17,7 +17,7 @@ def triple_record(av, bv, cv, x, dts):
     ra, rb, rc, rax, rbx = ranks(av, bv, cv, sorted(av + [x]), sorted(bv + [x]))
     z = f32_fields(0.0)
     r = dict(a=ra, b=rb, c=rc, ax=rax, bx=rbx, dts=list(dts), ok=False, err='',
-             d={n: z for n in ('ab', 'ba', 'ac', 'ca', 'bc', 'cb', 'wab', 'wba', 'aug', 'pab', 'pac')})
+             d={n: z for n in ('ab', 'ba', 'ac', 'ca', 'bc', 'cb', 'wab', 'wba', 'aug', 'pab', 'pac', 'mab', 'mac', 'maa', 'mbc')})
     try:
         A = np.array(av, dtype=dts[0]); B = np.array(bv, dtype=dts[1]); C = np.array(cv, dtype=dts[2])
         Aw = A.astype(WIDER[dts[0]]); Bw = B.astype(WIDER[dts[1]])
@@ -38,6 +38,19 @@ def triple_record(av, bv, cv, x, dts):
             d['pab'] = f32_fields(row[0]); d['pac'] = f32_fields(row[1])
         else:
             d['pab'] = d['ab']; d['pac'] = d['ac']
+        # the same distances once more through reference collections addressed by a permuted index list (matrix and all-pairs forms)
+        from gambit.metric import jaccarddist_matrix, jaccarddist_pairwise
+        wide = np.dtype(max((np.dtype(x) for x in dts), key=lambda t: (t.itemsize, t.kind == 'u')))
+        if all(int(v) <= int(np.iinfo(wide).max) for v in list(av) + list(bv) + list(cv)):
+            coll = SignatureArray([B.astype(wide), C.astype(wide), A.astype(wide), B.astype(wide)], KmerSpec(16, 'ATG'))
+            row = jaccarddist_matrix([A], coll, ref_indices=[0, 2, 1, 3])[0]            # columns: B, A, C, B
+            d['mab'] = f32_fields(row[0]); d['maa'] = f32_fields(row[1]); d['mac'] = f32_fields(row[2])
+            sq = jaccarddist_pairwise(coll, indices=[3, 0, 2, 1])                     # rows/columns: B, B, A, C
+            d['mbc'] = f32_fields(sq[1][3])
+            if not (f32_fields(row[3]) == d['mab'] and f32_fields(sq[0][2]) == f32_fields(sq[2][0])):
+                d['mab'] = dict(d['mab'], bad='index-selected columns disagree with each other')
+        else:
+            d['mab'] = d['ab']; d['mac'] = d['ac']; d['mbc'] = d['bc']
         r['ok'] = True
     except Exception as e:
         r['err'] = type(e).__name__
